@@ -2,7 +2,8 @@ import Ivy.L3.WorkProofs
 /-!
 # C13 — pool shutdown and iv_thread lifetime: drain, paired hooks, join, release
 
-Property theorems only (same LTS as C12, `Ivy/L3/Work.lean`, plus the `TSt` model of one iv_thread).
+Property theorems only (same LTS as C12, `Ivy/L3/Work.lean`, plus the `TSt` model of one iv_thread and its creator,
+for the code after the repair harness/iv_thread_creator_deinit.patch; the history of the defect is in Work.lean).
 -/
 namespace Ivy.Props.C13
 open Ivy.Work
@@ -51,31 +52,41 @@ theorem loop_objects {s : St} (h : Inv s) :
     (∀ k, k < s.nw → ((s.w k).deadOwed = true ↔ (s.w k).pc = .exited)) :=
   Proofs.loop_objects h
 
-/-- iv_thread: for every way the body ends, in every reachable state: `dead` is registered in the creator from
-create until the join, it is owed exactly between the thread's exit (TLS destructor) and the join, and posted at
-most once. -/
+/-- iv_thread, every interleaving of the thread's progress, the creator's loop and the creator deinitialising its
+loop at any moment (`TReach` has no restriction), for every way the body ends: nothing freed is ever used (neither
+the creator's loop state nor the record); `dead` is registered exactly from create until the join or the creator's
+deinit, and owed exactly between the thread's exit and the join while the creator's loop exists; it is posted at most
+once; the record is freed at most once, and it has been freed exactly when the thread was joined or the thread has
+exited and the creator's loop is gone (by whichever of the two came second). -/
 theorem thread_inv {m : ExitMode} {s : TSt} (hr : TReach m s) :
-    (s.deadReg = true ↔ s.pc ≠ .joined) ∧ (s.deadOwed = true ↔ s.pc = .exited) ∧
-    s.posts = (if s.pc = .exited ∨ s.pc = .joined then 1 else 0) ∧ s.fault = false :=
-  ⟨(Proofs.treach_inv hr).1.dead_reg, (Proofs.treach_inv hr).1.dead_owed, (Proofs.treach_inv hr).1.posts_eq, (Proofs.treach_inv hr).1.nofault⟩
+    s.fault = false ∧
+    (s.deadReg = true ↔ (s.creatorGone = false ∧ s.pc ≠ .joined)) ∧
+    (s.deadOwed = true ↔ (s.creatorGone = false ∧ s.pc = .exited)) ∧
+    s.posts = (if s.exited then 1 else 0) ∧
+    s.frees = (if s.pc = .joined ∨ (s.creatorGone = true ∧ s.pc = .exited) then 1 else 0) :=
+  ⟨(Proofs.treach_inv hr).1.nofault, (Proofs.treach_inv hr).1.dead_reg, (Proofs.treach_inv hr).1.dead_owed,
+   (Proofs.treach_inv hr).1.posts_eq, (Proofs.treach_inv hr).1.frees_eq⟩
 
-/-- iv_thread: whichever way the body ends (return, pthread_exit, with or without iv_deinit, never initialised),
-a thread that can make no further step has been joined, `dead` was posted exactly once and is unregistered, and
-its loop state (if any) was deinitialised exactly once. -/
-theorem thread_joined {m : ExitMode} {s : TSt} (hr : TReach m s) (hst : TStuck s) :
-    s.pc = .joined ∧ s.deadReg = false ∧ s.posts = 1 ∧ s.ivState = false ∧ s.deinits = (if s.mode = .noInit then 0 else 1) ∧
-    s.fault = false :=
-  Proofs.thread_joined (Proofs.treach_inv hr).1 hst
+/-- `dead` is never posted to a deinitialised loop: a post happens only in the exiting thread's destructor, only
+while the creator's loop exists, and it is the first and only one. -/
+theorem post_only_to_live_loop {m : ExitMode} {s s' : TSt} {a : TAct} (hr : TReach m s) (hs : tstep s a = some s')
+    (hp : s'.posts ≠ s.posts) : a = .destruct ∧ s.creatorGone = false ∧ s.posts = 0 ∧ s'.posts = 1 :=
+  Proofs.post_only_to_live_loop (Proofs.treach_inv hr).1 hs hp
 
-/-- FINDING (negative result, true of the code as it is).  The statement "a created thread never makes the library
-touch freed memory" is false once the creator may leave its loop with `iv_quit` and call `iv_deinit` while the thread
-is still alive — a situation `iv_thread_tls_deinit_thread` explicitly provides for by detaching the thread: `dead`
-stays registered in the creator's iv_state, that state is freed, and the exiting thread's destructor posts to it.
-Witness, for every way the body ends: the thread runs, the creator deinitialises, the body ends, the destructor runs. -/
-theorem finding_creator_deinit_uaf (m : ExitMode) :
-    ∃ s, ([TAct.run, .creatorDeinit] ++ (if m.deinits then [TAct.deinit] else []) ++ [TAct.leave, .destruct]).foldlM tstep
-      { mode := m } = some s ∧ s.fault = true ∧ s.deadReg = true := by
-  cases m <;> simp [ExitMode.deinits] <;> decide
+/-- Whichever way the body ends (return, pthread_exit, with or without iv_deinit, never initialised) and whenever the
+creator deinitialises: once neither the thread nor the creator's loop can do anything more, the thread has been
+joined, or it has exited and the creator's loop is gone; the record has been freed exactly once, `dead` is
+unregistered and not pending, the thread's loop state (if any) was deinitialised exactly once, nothing freed was used. -/
+theorem thread_final {m : ExitMode} {s : TSt} (hr : TReach m s) (hst : TStuck s) :
+    (s.pc = .joined ∨ (s.pc = .exited ∧ s.creatorGone = true)) ∧ s.frees = 1 ∧ s.deadReg = false ∧ s.deadOwed = false ∧
+    s.ivState = false ∧ s.deinits = (if s.mode = .noInit then 0 else 1) ∧ s.fault = false :=
+  Proofs.thread_final (Proofs.treach_inv hr).1 hst
+
+/-- While the creator stays in its loop (does not deinitialise), a thread that can make no further step has been
+joined: the creator's `iv_main` is held open (registered `dead`) until then. -/
+theorem thread_joined {m : ExitMode} {s : TSt} (hr : TReach m s) (hst : TStuck s) (hg : s.creatorGone = false) :
+    s.pc = .joined ∧ s.deadReg = false ∧ s.posts = 1 :=
+  Proofs.thread_joined (Proofs.treach_inv hr).1 hst hg
 
 /-- Non-vacuity: put while the single worker is parked idle: the worker is kicked, dies (thread_stop), posts the
 owner, exits and is joined; the owner frees the pool. -/
@@ -85,8 +96,18 @@ example :
       (fun s => s.freed && !s.handle && (s.w 0).pc == .joined && (s.w 0).starts == 1 && (s.w 0).stops == 1 &&
                 poolObjs s == 0 && (s.it 0).phase == .completed) = some true := by decide
 
-/-- Non-vacuity (iv_thread): a body that returns without iv_deinit. -/
+/-- Non-vacuity (iv_thread): a body that returns without iv_deinit, joined by the creator's loop. -/
 example : (([TAct.run, .leave, .destruct, .died] : List TAct).foldlM tstep { mode := .retNoDeinit }).map
-    (fun s => s.pc == .joined && !s.deadReg && s.posts == 1 && s.deinits == 1) = some true := by decide
+    (fun s => s.pc == .joined && !s.deadReg && s.posts == 1 && s.deinits == 1 && s.frees == 1 && !s.fault) = some true := by decide
+
+/-- Non-vacuity: the creator deinitialises first (the old use-after-free schedule): the thread finds itself orphaned,
+does not post, and frees the record. -/
+example : (([TAct.run, .creatorDeinit, .deinit, .leave, .destruct] : List TAct).foldlM tstep { mode := .ret }).map
+    (fun s => s.pc == .exited && s.orphaned && !s.deadReg && s.posts == 0 && s.frees == 1 && !s.fault) = some true := by decide
+
+/-- Non-vacuity: the thread exits and posts first, the creator deinitialises before its loop ran the handler: the
+pending post is dropped with the unregistration and the creator frees the record. -/
+example : (([TAct.run, .leave, .destruct, .creatorDeinit] : List TAct).foldlM tstep { mode := .pexitNoDeinit }).map
+    (fun s => s.pc == .exited && !s.orphaned && !s.deadReg && !s.deadOwed && s.posts == 1 && s.frees == 1 && !s.fault) = some true := by decide
 
 end Ivy.Props.C13
